@@ -57,6 +57,32 @@ CLAIMS = {
              "trusted for data races in executed schedules",
         engine="astconc",
     ),
+    "C08": dict(
+        category="model_checking",
+        technique="TLA+ model of the RCU program cache (Cache: lock-free Get on immutable snapshots, Compute with double check, copy-on-write "
+                  "add with rehash, atomic publish) checked by TLC; every 2-goroutine model path replayed as a gated schedule on the real "
+                  "cache; -race runs of sampled schedules plus stress across the real rehash and through the public API",
+        text="TLC checks one-compile-per-type, monotonicity, snapshot immutability, table well-formedness/findability, mutual exclusion and "
+             "termination for 2x2 and 3x3 goroutines x types with rehash; schedules are enforced on real goroutines through instrumentation "
+             "points; results must be the right codec, exactly one compile, no lost entry, no race report.",
+        design_ref="DESIGN.md section 4 C08, section 11",
+        note="InitCap scaled to 2/4 in the model; gated replay on a private cache instance via the verif bridge; pools exercised only by "
+             "the API stress under -race; race detector trusted for executed runs",
+        engine="pcache",
+    ),
+    "C09": dict(
+        category="model_checking",
+        technique="TLA+ model of process history (Session: type identity vs printed name, first use vs PretouchMany batches, cache fill) "
+                  "checked by TLC; every generated history (seeded stride sample) replayed in a fresh process and probed against an "
+                  "empty-history process",
+        text="TLC enumerates all call histories up to the bound and checks that each type is always served by its own codec; the harness "
+             "runs each history in a fresh process and compares a fixed Marshal/Unmarshal probe of all family types (incl. two distinct "
+             "types printing the same name) with the fresh-process result; a crash is a violation.",
+        design_ref="DESIGN.md section 4 C09, section 11",
+        note="fixed 4-type family plus filler types; recursion depth 0/1 only; probe compares printed results; thorough tier repeats a "
+             "sample under SONIC_USE_OPTDEC and SONIC_ENCODER_USE_VM",
+        engine="session",
+    ),
 }
 
 NOT_YET = "not yet claimed: check under construction (build phase), see DESIGN.md section 8"
